@@ -18,13 +18,13 @@ TraceFile == JsonDeserialize(IOEnv.TRACE_FILE)
 Traces == TraceFile.traces
 T_Procs == 1..TraceFile.maxprocs
 T_Dev == {"RestoreRaceOnStartup", "BootstrapUnderSnapshot", "BootcheckNeverHits"}
-ScnOf(t) == [bak |-> Traces[t].scn.bak, boot |-> Traces[t].scn.boot, cursor |-> Traces[t].scn.cursor]
+ScnOf(t) == [bak |-> Traces[t].scn.bak, boot |-> Traces[t].scn.boot, cursor |-> Traces[t].scn.cursor, drv |-> Traces[t].scn.drv]
 T_Scn == {ScnOf(t) : t \in 1..Len(Traces)}
 
-VARIABLES scn, pmain, pbak, ino, wlock, pc, conn, snap, saw, res, chk, raced, snapfail, tid, used, bad
+VARIABLES scn, pmain, pbak, ino, wlock, pc, conn, snap, saw, res, chk, raced, snapfail, opn, life, tid, used, bad
 W == INSTANCE Workers WITH Procs <- T_Procs, Dev <- T_Dev, Scenarios <- T_Scn
-wvars == <<scn, pmain, pbak, ino, wlock, pc, conn, snap, saw, res, chk, raced, snapfail>>
-tvars == <<scn, pmain, pbak, ino, wlock, pc, conn, snap, saw, res, chk, raced, snapfail, tid, used, bad>>
+wvars == <<scn, pmain, pbak, ino, wlock, pc, conn, snap, saw, res, chk, raced, snapfail, opn, life>>
+tvars == <<scn, pmain, pbak, ino, wlock, pc, conn, snap, saw, res, chk, raced, snapfail, opn, life, tid, used, bad>>
 
 Events == Traces[tid].events
 
@@ -35,6 +35,9 @@ ClsOf(lab) ==
     [] lab = "connect" -> "connect" [] lab = "script" -> "script" [] lab = "cursor" -> "cursor"
     [] lab = "read1" -> "read" [] lab = "read2" -> "read" [] lab = "bootcheck" -> "bootcheck"
     [] lab = "insert" -> "write" [] lab = "commit" -> "commit" [] OTHER -> "none"
+\* process 0 is the creating context; a context whose page work is over is at its close
+ClsAt(p) == IF W!CanClose(p) THEN "close" ELSE ClsOf(pc[p])
+LabAt(p) == IF W!CanClose(p) THEN "close" ELSE pc[p]
 
 ReadResult(p) ==
   IF W!Exp \in W!View(p) THEN W!Exp
@@ -58,13 +61,13 @@ Idx == 1..Len(Events)
 \* no unconsumed event finished before this one started
 Ready(i) == i \notin used /\ \A j \in Idx \ used : j = i \/ ~(Events[j].t1 < Events[i].t0)
 Clean(i) == LET e == Events[i] IN
-            /\ ClsOf(pc[e.p]) = e.cls /\ ENABLED W!Step(e.p) /\ Same(e.r, ModelResult(e.p))
+            /\ ClsAt(e.p) = e.cls /\ ENABLED W!Step(e.p) /\ Same(e.r, ModelResult(e.p))
 FirstReady == CHOOSE i \in Idx : Ready(i) /\ \A j \in Idx : Ready(j) => Events[i].t1 <= Events[j].t1
 
 Note(i, why, exp) ==
   LET e == Events[i] IN
   bad' = Append(bad, [i |-> i, p |-> e.p, cls |-> e.cls, r |-> e.r, why |-> why, expected |-> exp,
-                      raced |-> raced, snapfail |-> snapfail])
+                      raced |-> raced, snapfail |-> snapfail, life |-> life])
 
 ConsumeClean(i) == Ready(i) /\ Clean(i) /\ W!Step(Events[i].p) /\ bad' = bad /\ used' = used \cup {i}
 
@@ -74,10 +77,10 @@ ConsumeBad ==
          e == Events[i]
          p == e.p IN
      /\ used' = used \cup {i}
-     /\ IF ClsOf(pc[p]) # e.cls
-        THEN Note(i, "operation not expected here", pc[p]) /\ UNCHANGED wvars
+     /\ IF ClsAt(p) # e.cls
+        THEN Note(i, "operation not expected here", LabAt(p)) /\ UNCHANGED wvars
         ELSE IF ~ENABLED W!Step(p)
-        THEN Note(i, "step not enabled in the model", pc[p]) /\ UNCHANGED wvars
+        THEN Note(i, "step not enabled in the model", LabAt(p)) /\ UNCHANGED wvars
         ELSE W!Step(p) /\ Note(i, "result differs", ModelResult(p))
 
 TNext == ((\E i \in Idx : ConsumeClean(i)) \/ ConsumeBad) /\ tid' = tid
@@ -88,5 +91,5 @@ Verdict ==
     PrintT(<<"VERDICT", ToJson([tid |-> tid, bad |-> bad,
                                 res |-> [i \in 1..Traces[tid].n |-> res[i]],
                                 store |-> (pmain # 0 /\ ino[pmain].c \ {"boot"} = {W!Exp}),
-                                raced |-> raced, snapfail |-> snapfail])>>)
+                                raced |-> raced, snapfail |-> snapfail, life |-> life])>>)
 =============================================================================
